@@ -27,6 +27,10 @@ type RealPlan struct {
 	Stop   int    `json:"stop"`   // stream.Merge: values to read before Close; -1 = to the end / error
 	Dsts   int    `json:"dsts"`   // Replicate
 	Source int    `json:"source"` // Replicate: number of values
+	// GoexitIn (k > 0, stream.Merge): input k-1 ends its goroutine - one of Merge's - with runtime.Goexit instead of
+	// reporting its end (t.FailNow in a test double does that): the merged stream still comes to an end, Close
+	// returns and every input is closed once
+	GoexitIn int `json:"goexit_in,omitempty"`
 }
 
 func genRealPlan(t *rapid.T) RealPlan {
@@ -43,6 +47,9 @@ func genRealPlan(t *rapid.T) RealPlan {
 		}
 		if rapid.IntRange(0, 2).Draw(t, "early") == 0 {
 			p.Stop = rapid.IntRange(0, 10).Draw(t, "stop")
+		}
+		if p.ErrIn < 0 && rapid.IntRange(0, 3).Draw(t, "goexit") == 0 {
+			p.GoexitIn = 1 + rapid.IntRange(0, n-1).Draw(t, "goexitin")
 		}
 	}
 	return p
@@ -182,6 +189,9 @@ func realBody(p RealPlan) error {
 			r := sk.NewRecStream(fmt.Sprintf("in%d", i), items)
 			if i == p.ErrIn {
 				r.FinalAt, r.Final = n, E
+			}
+			if i == p.GoexitIn-1 {
+				r.GoexitAt = n + 1 // after its values
 			}
 			recs[i], ss[i] = r, r
 		}
